@@ -17,6 +17,7 @@ WrapsTiny  == << <<>>, <<"Opt">>, <<"Vec">> >>
 \* renames for the exhaustive runs: two ordinary ones and one that is also a field identifier ("a")
 RensMC     == << "a b", "with \"quotes\"", "a" >>
 NoBases    == <<B("Bool", "")>>
+DocBoth    == BOOLEAN
 
 \* ------------------------------------------------------------------------------------------------
 \* Generation.  One line per declaration of the rotating family (all sizes in GenSizes whose first
@@ -25,7 +26,7 @@ NoBases    == <<B("Bool", "")>>
 \* ------------------------------------------------------------------------------------------------
 CONSTANTS GenSizes,     \* [named_derive |-> {..}, named_map |-> {..}, tuple_derive |-> {..}, enum_derive |-> {..}]
           NVals         \* values per declaration
-AttrDevs == <<"IntBeyond2p53", "NullTruncatesArray">>
+AttrDevs == <<"IntBeyond2p53", "NullTruncatesArray", "DocAttrPanics">>
 SizesNone     == [named_derive |-> {}, named_map |-> {}, tuple_derive |-> {}, enum_derive |-> {}]
 SizesQuick    == [named_derive |-> {2, 3, 4}, named_map |-> {2, 4}, tuple_derive |-> {1, 3}, enum_derive |-> {1, 3, 4}]
 SizesThorough == [named_derive |-> {1, 2, 3, 4, 6}, named_map |-> {1, 2, 3, 5}, tuple_derive |-> {1, 2, 3, 4, 6}, enum_derive |-> {1, 2, 3, 4, 5, 6}]
